@@ -131,11 +131,16 @@ def run(ctx):
                 members.append(('Object %d/data.bin' % n, b'BIN%d' % n, 'application/octet-stream')); extra_files['Object %d/data.bin' % n] = (b'BIN%d' % n, 'application/octet-stream')
             if ctx.rng.random() < 0.3:
                 members += [('Object %d/Object 1/' % n, '', C03.MIMEC), ('Object %d/Object 1/content.xml' % n, c(1000 + n), 'text/xml'), ('Object %d/Object 1/styles.xml' % n, s, 'text/xml')]
+        if i % 5 == 0:      # pictures of the top document in a folder below Pictures/, the folders listed in the manifest
+            members += [('Pictures/', '', ''), ('Pictures/sub/', '', ''), ('Pictures/sub/q.png', b'QPIC', 'image/png')]; extra_files['Pictures/sub/q.png'] = (b'QPIC', 'image/png')
         order = list(range(len(members) + 1)); ctx.rng.shuffle(order)
         src = P.make_package(members, manifest_order=order)
         sp = P.read_package(src)
         # classification of every manifest entry: model vs what load() does with it (observed through the result)
-        doc = load(io.BytesIO(src))
+        try: doc = load(io.BytesIO(src))
+        except Exception as e:
+            ctx.oracle_cases += 1
+            ctx.violation('load-raised', {'manifest': sp['manifest']}, repr(e)[:200], 'the package loads', {'exception': type(e).__name__}); continue
         msx = '(' + ' '.join('(%s %s)' % (sx_str(p), sx_str(mt or '')) for p, mt in sp['manifest']) + ')'
         loaded_objs = sorted(k.folder[1:] + '/' for k in doc.childobjects)
         fsx = P.foreign_folders_sx(sp, d)
